@@ -1784,10 +1784,21 @@ class Compiler:
 
             self._current_slot.append(slot.name)
 
-            body = self.visit_Context(slot)
+            # The slot filler is a function of its own: it writes to
+            # the stream it is called with (the slot may be inside a
+            # translation), and converts inserted values under its own
+            # translation settings.
+            body = [TranslationContext(
+                template("__append = __stream.append") +
+                template("econtext['target_language'] = target_language") +
+                emit_func_convert("__convert") +
+                emit_func_convert_and_escape("__quote") +
+                self.visit_Context(slot),
+                "__append", "__stream",
+            )]
 
-            # The slot filler is a function of its own: it keeps track
-            # of the expression it evaluates, so that an error is
+            # It also keeps track of the expression it evaluates, so
+            # that an error is
             # attributed to that expression (and to this template)
             # rather than to whatever the macro evaluated last.
             body = template("__token = None") + \
